@@ -1,5 +1,5 @@
 CONSTANTS
-  Impl = "asis"
+  Impl = "intended"
   Clocks <- ClocksFull
   Chans <- ChansFull
   Partners = 0
